@@ -422,8 +422,15 @@ namespace
 	auto &a = const_cast <value_abbrev &>
 	  (value::require_as <value_abbrev> (v));
 	Dwarf_Abbrev *ab = &a.get_abbrev ();
+	// dwarf_getattrcnt miscounts abbreviations with DW_FORM_implicit_const; walk instead.
 	size_t cnt = 0;
-	dwarf_getattrcnt (ab, &cnt);
+	{
+	  unsigned nm0 = 0, fm0 = 0;
+	  Dwarf_Sword data0 = 0;
+	  Dwarf_Off off0 = 0;
+	  while (dwarf_getabbrevattr_data (ab, cnt, &nm0, &fm0, &data0, &off0) == 0)
+	    ++cnt;
+	}
 	o << "\"t\":\"ab\",\"code\":" << unsigned (dwarf_getabbrevcode (ab))
 	  << ",\"tag\":" << unsigned (dwarf_getabbrevtag (ab))
 	  << ",\"ch\":" << int (dwarf_abbrevhaschildren (ab))
